@@ -421,6 +421,13 @@ func (fv *FV) postEnv(st *State, results []Term) *Env {
 	for k, v := range fv.entryNames {
 		names[k] = v
 	}
+	if fv.fc != nil {
+		for _, g := range fv.fc.GhostRet {
+			if v, ok := st.ghost[g.Name]; ok {
+				names[g.Name] = v
+			}
+		}
+	}
 	for i, n := range fv.resNames {
 		if n != "" && n != "_" && i < len(results) {
 			names[n] = results[i]
@@ -474,7 +481,18 @@ func (fv *FV) doReturn(st *State, results []Term, pos token.Pos) {
 		if lbl == "" {
 			lbl = fmt.Sprint(i + 1)
 		}
-		fv.oblige(st, fmt.Sprintf("post.%s.r%d", lbl, k), fv.specBool(env, e.Expr), "ensures "+e.Src, e.Tags, pos)
+		if e.Assumed {
+			fv.assumptions["postcondition `"+lbl+"` of "+fv.fi.FullName()+" is assumed at call sites and checked by a bounded stand-in only"] = true
+			continue
+		}
+		parts := fv.splitConj(env, e.Expr)
+		for j, phi := range parts {
+			name := fmt.Sprintf("post.%s.r%d", lbl, k)
+			if len(parts) > 1 {
+				name = fmt.Sprintf("post.%s/%d.r%d", lbl, j+1, k)
+			}
+			fv.oblige(st, name, phi, "ensures "+e.Src, e.Tags, pos)
+		}
 	}
 	fv.frameObligations(st, k, pos)
 }
@@ -484,13 +502,13 @@ func (fv *FV) frameObligations(st *State, k int, pos token.Pos) {
 	env := fv.postEnv(fv.entry, nil)
 	env.st = fv.entry
 	targets := fv.modTargets(env, fv.fc.Modifies)
-	by := map[string][]string{}
+	by := map[string][]modTarget{}
 	whole := map[string]bool{}
 	for _, t := range targets {
 		if t.ref == "" {
 			whole[t.key] = true
 		} else {
-			by[t.key] = append(by[t.key], t.ref)
+			by[t.key] = append(by[t.key], t)
 		}
 	}
 	var keys []string
@@ -515,9 +533,23 @@ func (fv *FV) frameObligations(st *State, k int, pos token.Pos) {
 			continue
 		}
 		is, _ := arraySorts(sortc)
+		if strings.HasPrefix(key, "E:") {
+			// element stores: per index, so that `elems(s)` confines writes to the window of s
+			var excl []string
+			for _, t := range by[key] {
+				if t.lo == "" {
+					excl = append(excl, not(eq("r", t.ref)))
+				} else {
+					excl = append(excl, not(and(eq("r", t.ref), app("<=", t.lo, "x"), app("<", "x", t.hi))))
+				}
+			}
+			phi := fmt.Sprintf("(forall ((r Int) (x Int)) (=> %s (= (select (select %s r) x) (select (select %s r) x))))", and(append([]string{sel(alloc0, "r")}, excl...)...), cur.S, fv.heapGet(fv.entry, key))
+			fv.oblige(st, fmt.Sprintf("frame[%s].r%d", key, k), phi, "frame: only elements named in `modifies` (or of freshly allocated arrays) change in "+key, nil, pos)
+			continue
+		}
 		var excl []string
-		for _, r := range by[key] {
-			excl = append(excl, not(eq("r", r)))
+		for _, t := range by[key] {
+			excl = append(excl, not(eq("r", t.ref)))
 		}
 		guardAlloc := "true"
 		if is == sInt && !strings.HasPrefix(key, "C:") && !strings.HasPrefix(key, "G:") {
@@ -597,6 +629,14 @@ func (fv *FV) verify() (err error) {
 			fv.entryNames[g.Name] = c
 		}
 	}
+	if fv.fc != nil {
+		for _, g := range fv.fc.GhostRet {
+			env := fv.localEnv(st, fd.Body.Lbrace+1)
+			t := fv.resolveType(env, g.Type)
+			s := fv.sortOf(t)
+			st.ghost[g.Name] = Term{S: fv.fresh(g.Name, s), Sort: s, T: t}
+		}
+	}
 	fv.numberLoops(fd.Body)
 	fv.entry = st.clone()
 	if fv.fc != nil {
@@ -651,6 +691,7 @@ type loopEffects struct {
 }
 
 type effTarget struct {
+	wholeArray bool // append: may write beyond len
 	key  string
 	base ast.Expr // expression whose value identifies the reference (pointer for fields, slice for elements); nil = whole
 	call *ast.CallExpr
@@ -677,7 +718,14 @@ func (fv *FV) checkInvariants(st *State, ls *LoopSpec, ord int, phase string, po
 		if lbl == "" {
 			lbl = fmt.Sprint(i + 1)
 		}
-		fv.oblige(st, fmt.Sprintf("loop%d.%s.%s", ord, phase, lbl), fv.specBool(env, inv.Expr), "loop invariant ("+phase+"): "+inv.Src, inv.Tags, pos)
+		parts := fv.splitConj(env, inv.Expr)
+		for j, phi := range parts {
+			name := fmt.Sprintf("loop%d.%s.%s", ord, phase, lbl)
+			if len(parts) > 1 {
+				name += fmt.Sprintf("/%d", j+1)
+			}
+			fv.oblige(st, name, phi, "loop invariant ("+phase+"): "+inv.Src, inv.Tags, pos)
+		}
 	}
 }
 
@@ -1017,7 +1065,7 @@ func (fv *FV) callEffects(eff *loopEffects, c *ast.CallExpr) {
 				if et := elemType(fv.typeOf(c)); et != nil {
 					key, _ := fv.elemComp(et)
 					eff.comps[key] = true
-					eff.targets = append(eff.targets, effTarget{key: key, base: c.Args[0]})
+					eff.targets = append(eff.targets, effTarget{key: key, base: c.Args[0], wholeArray: true})
 					eff.allocs = true
 				}
 			case "copy":
@@ -1159,6 +1207,7 @@ func (fv *FV) applyEffects(pre, head *State, eff *loopEffects) {
 	type resolved struct {
 		key string
 		ref string
+		lo, hi string
 		ok  bool // targeted
 	}
 	var res []resolved
@@ -1239,18 +1288,21 @@ func (fv *FV) applyEffects(pre, head *State, eff *loopEffects) {
 			res = append(res, resolved{key: t.key})
 			continue
 		}
-		var ref string
+		var ref, lo, hi string
 		scratch := pre.clone()
 		quiet(func() {
 			v := fv.evalExpr(scratch, t.base)
 			switch {
 			case v.Sort == sSlice:
 				ref = "(sbase " + v.S + ")"
+				if !t.wholeArray {
+					lo, hi = "(soff "+v.S+")", "(+ (soff "+v.S+") (slen "+v.S+"))"
+				}
 			default:
 				ref = v.S
 			}
 		})
-		res = append(res, resolved{key: t.key, ref: ref, ok: true})
+		res = append(res, resolved{key: t.key, ref: ref, lo: lo, hi: hi, ok: true})
 	}
 	for _, ct := range calls {
 		inv := true
@@ -1269,7 +1321,7 @@ func (fv *FV) applyEffects(pre, head *State, eff *loopEffects) {
 		}
 		for _, m := range ct.mts {
 			if inv && m.ref != "" {
-				res = append(res, resolved{key: m.key, ref: m.ref, ok: true})
+				res = append(res, resolved{key: m.key, ref: m.ref, lo: m.lo, hi: m.hi, ok: true})
 			} else {
 				res = append(res, resolved{key: m.key})
 			}
@@ -1288,14 +1340,14 @@ func (fv *FV) applyEffects(pre, head *State, eff *loopEffects) {
 		if whole[r.key] {
 			if !done[r.key] {
 				done[r.key] = true
-				targets = append(targets, modTarget{r.key, ""})
+				targets = append(targets, modTarget{key: r.key})
 			}
 			continue
 		}
-		id := r.key + "\x00" + r.ref
+		id := r.key + "\x00" + r.ref + "\x00" + r.lo + "\x00" + r.hi
 		if !done[id] {
 			done[id] = true
-			targets = append(targets, modTarget{r.key, r.ref})
+			targets = append(targets, modTarget{key: r.key, ref: r.ref, lo: r.lo, hi: r.hi})
 		}
 	}
 	fv.havoc(head, targets)
